@@ -362,9 +362,32 @@ def _one_simulator_per_run(prog, chk, R, mutators):
                 work.append(c_)
     ex, ev = R.ev_method('exec'), R.ev_method('eval')
     inner = {id(x) for x in prog.reach([ex, ev])}
+    def first_touch(f, node, depth):
+        """a call that can reach a simulator operation and may run before `node` of f in the same run — in f itself, or before the call of
+        f in one of its callers (a replacement moved into a `resetRunState()` helper is judged where the helper is called)"""
+        g = prog.cfg(f)
+        before = g.reachable([node], forward=False)
+        early = [c for c in g.nodes if c.id in before and c.kind == 'call' and SX.is_node(c.e) and c.e.get('k') in ('call', 'mcall') and c is not node
+                 and any(id(t) in touch for t in prog.resolve(c.e))]
+        if early:
+            return f, early[0]
+        if depth == 0:
+            return None
+        for cf, cn in prog.callers(f):
+            if not cf.body or not cf.name.startswith(R.ev['name'] + '::'):
+                continue
+            gc_ = prog.cfg(cf)
+            at = [x for x in gc_.nodes if x.kind == 'call' and x.e is cn]
+            if not at:
+                at = [x for x in gc_.nodes if SX.is_node(x.e) and any(y is cn for y in SX.walk(x.e, into_lambdas=False))]
+            for a_ in at[:1]:
+                r_ = first_touch(cf, a_, depth - 1)
+                if r_:
+                    return r_
+        return None
     n = 0
     for f in prog.functions:
-        if not f.body or not f.name.startswith(R.ev['name'] + '::'):
+        if not f.body or not f.name.startswith(R.ev['name'] + '::') or f.kind == 'ctor':
             continue
         if not any(SX.is_this_member(m_, simf) for m_ in SX.walk(f.body, into_lambdas=False) if m_.get('k') == 'member'):
             continue
@@ -373,12 +396,10 @@ def _one_simulator_per_run(prog, chk, R, mutators):
             if not SX.is_this_member(SX.strip(l), simf):
                 continue
             n += 1
-            before = g.reachable([w], forward=False)
-            early = [c for c in g.nodes if c.id in before and c.kind == 'call' and SX.is_node(c.e) and c.e.get('k') in ('call', 'mcall')
-                     and any(id(t) in touch for t in prog.resolve(c.e))]
+            early = first_touch(f, w, 3)
             chk.ob('R05.3', f, w.ln, id(f) not in inner and not early,
                    'the simulator is replaced whole only before anything of the run can have been logged: %s is not re-entered by program code, and no call before the replacement reaches a '
-                   'simulator operation%s' % (f.short, (' (line %s does)' % early[0].ln) if early else ''), key='fresh-simulator:' + f.short)
+                   'simulator operation%s' % (f.short, (' (%s line %s does)' % (early[0].short, early[1].ln)) if early else ''), key='fresh-simulator:' + f.short)
     chk.count('whole-simulator replacements', n, 1)
 
 
